@@ -9,7 +9,7 @@ import numpy as np
 import z3
 
 from symx.core import (SReal, _real_term, assume, cur, explore, marray, mfloat, real, reals, refute, rv, single_path)
-from symx.ext_c15 import ContractBudget, SolveIvpContract, pin_scipy
+from symx.ext_c15 import ContractBudget, SolveIvpContract, pin_scipy, sym_max
 from symx.runner import Ob
 from symx.stubs import shadow, shadow_attr, sym_zeros
 
@@ -50,7 +50,7 @@ ENCODED = [
 RES_D = 1e-15  # numpy.finfo(float).resolution, the threshold inside fpe_equals
 ETA = Fraction(4, 10 ** 9)  # an event time is either exactly on a grid time or at least this far from it
 TOL_T = Fraction(1, 10 ** 6)  # s: tolerance on integrated spans / event application times
-T_MIN, T_MAX = 8, 2 ** 20
+T_MIN, T_MAX = 0, 2 ** 20
 DT_MIN = 1
 EPOCH_TOL = Fraction(1, 10 ** 9)  # days
 
@@ -76,7 +76,7 @@ OUTSIDE = [
     "separate calls only for state-independent (ECI) impulses; station keeping events",
     "two events within 4e-9 s of each other or of a grid time without being exactly on it: which side the brentq iterate falls on decides the reported state (== comparisons in propagateBulk)",
     "two impulses at exactly the same instant (solve_ivp keeps only the first terminal root of a step)",
-    "times below 8 s (numpy.spacing(t) < finfo.resolution: restarts stay on the fpe_equals plateau) and above 2^20 s",
+    "times above 2^20 s (times from 0 are inside: numpy.spacing is any value in (0, 2^-33])",
     "1-D states in propagateBulk with events (documented input is (6, K)); the integrator method strings (RK45/DOP853 are passed through to solve_ivp untouched: checked concretely in O2-noevent)",
     "the values of the providers inside the perturbed derivative (ephemerides, reduction, geopotential: C13/C04); O3 decides only which epoch they are asked for",
 ]
@@ -455,7 +455,7 @@ def o1_batch(dynname, Ks, nsteps):
                     ivp = SolveIvpContract(steps=(nsteps,), max_calls=2 * (K + 2))
                     _share_step_ends(p, ivp)
                     memo = _Memo()
-                    with shadow(CEL, solve_ivp=ivp, spacing=ivp.spacing):
+                    with shadow(CEL, solve_ivp=ivp, spacing=ivp.spacing, max=sym_max):
                         if dynname == "twobody":
                             with shadow(TBD, empty_like=_el, norm=_nrm):
                                 mk = TBD.TwoBody
@@ -540,7 +540,7 @@ def o3_epoch(rep):
             assume(jd0.t >= rv(2400000.5), jd0.t <= rv(2500000.5), s.t >= -T_MAX, s.t <= T_MAX)
             ivp = SolveIvpContract(steps=(1,), max_calls=4)
             memo = _Memo()
-            with shadow(CEL, solve_ivp=ivp, spacing=ivp.spacing), _SPWorld(memo):
+            with shadow(CEL, solve_ivp=ivp, spacing=ivp.spacing, max=sym_max), _SPWorld(memo):
                 a = _sp_dynamics(jd0).propagate(t0, tf, X)
                 n_first = len(memo.asked)
                 b = _sp_dynamics(jd0 + s / 86400).propagate(t0 - s, tf - s, X)
@@ -625,7 +625,7 @@ class _FreeWorld:
         from resonaate.dynamics.integration_events import finite_thrust as FT
         from resonaate.dynamics.integration_events import scheduled_impulse as SI
 
-        self.cms = [shadow(CEL, solve_ivp=self.ivp, spacing=self.ivp.spacing, zeros=sym_zeros),
+        self.cms = [shadow(CEL, solve_ivp=self.ivp, spacing=self.ivp.spacing, max=sym_max, zeros=sym_zeros),
                     shadow(TBD, empty_like=_el, norm=lambda v: SReal(1), Earth=_Tok(mu=0.0, radius=_earth_R()), checkEarthCollision=lambda r: None),
                     shadow(SI, EventStack=self.log, zeros=sym_zeros), shadow(FT, EventStack=self.log, zeros=sym_zeros)]
         for c in self.cms:
